@@ -297,16 +297,14 @@ def diff_sig(exp, got):
         elif a[0] == "rel":
             out.append("o%d.rel" % i)
         elif a[0] == "m":
-            f = []
             if a[1] != b[1]:
-                f.append("w:%s->%s" % (a[1], b[1]))
+                out.append("o%d.mem.w:%s->%s" % (i, a[1], b[1]))
             if a[2] != b[2]:
-                f.append("asz:%s->%s" % (a[2], b[2]))
+                out.append("o%d.mem.asz:%s->%s" % (i, a[2], b[2]))
             if a[3] != b[3]:
-                f.append("lin")
+                out.append("o%d.mem.lin:%s" % (i, lin_diff(dict(a[3]), dict(b[3]))))
             if a[4] != b[4]:
-                f.append("disp")
-            out.append("o%d.mem(%s)" % (i, ",".join(f)))
+                out.append("o%d.mem.disp:%s" % (i, disp_diff(a[4], b[4])))
     return ";".join(out) or "differ"
 
 
@@ -340,3 +338,49 @@ def _regdelta(a, b):
     if nb - na == 8:
         return "(ext-gained)"
     return "(num)"
+
+
+def lin_diff(e, g):
+    """classify how a decoded linear address form differs from the expected one"""
+    if sum(e.values()) == sum(g.values()) and len(e) == len(g):
+        # same coefficients, registers renamed?
+        ee = sorted((c, regnum(r), regclass(r)) for r, c in e.items())
+        gg = sorted((c, regnum(r), regclass(r)) for r, c in g.items())
+        lost = gained = other = 0
+        rem = list(g.items())
+        for r, c in e.items():
+            if g.get(r) == c:
+                continue
+            lo = [x for x in g if regclass(x) == regclass(r) and regnum(x) == regnum(r) - 8 and x not in e]
+            hi = [x for x in g if regclass(x) == regclass(r) and regnum(x) == regnum(r) + 8 and x not in e]
+            if lo:
+                lost += 1
+            elif hi:
+                gained += 1
+            else:
+                other += 1
+        if not other and lost and not gained:
+            return "ext-lost"
+        if not other and gained and not lost:
+            return "ext-gained"
+    dropped = [r for r in e if r not in g]
+    added = [r for r in g if r not in e]
+    if dropped and not added and all(g.get(r) == c for r, c in e.items() if r in g):
+        return "dropped"
+    if added and not dropped and all(e.get(r) == c for r, c in g.items() if r in e):
+        return "added"
+    if set(e) == set(g):
+        return "coeff"
+    return "other"
+
+
+def disp_diff(e, g):
+    if e < 0 and g == (e & 0xff):
+        return "neg8-zero-extended"
+    if e < 0 and g == (e & 0xffffffff):
+        return "neg32-zero-extended"
+    if g == 0:
+        return "lost"
+    if e == 0:
+        return "spurious"
+    return "other"
